@@ -111,3 +111,14 @@ Definition check_gmm_fit (K' D N n : nat) (tiny tinyw : float) (y g0 : list (lis
         cmpF tol (tol * scaleF (flat impl_mean)) (flat (gmean m)) (flat impl_mean);
         cmpF tol (tol * scaleF (flat impl_var)) (flat (gvar m)) (flat impl_var);
         cmpF tol (tol * 0x1p-6) (flat post) (flat impl_post)].
+(* the same for covariance_type='spherical'; impl_var: the class variance repeated D times *)
+Definition check_gmm_fit_sph (K' D N n : nat) (tiny tinyw : float) (y g0 : list (list float))
+    (impl_w : list float) (impl_mean impl_var impl_post : list (list float)) : bool * float :=
+  let pi2 := (2 * 0x1.921fb54442d18p+1)%float in
+  let m := gmm_fit_sph FO K' D N tiny tinyw pi2 (fnth2 y) n g0 in
+  let post := gmm_predict FO K' D N tiny pi2 (fnth2 y) m in
+  let tol := 0x1p-20 in
+  allR [cmpF tol (tol * 0x1p-10) (gw m) impl_w;
+        cmpF tol (tol * scaleF (flat impl_mean)) (flat (gmean m)) (flat impl_mean);
+        cmpF tol (tol * scaleF (flat impl_var)) (flat (gvar m)) (flat impl_var);
+        cmpF tol (tol * 0x1p-6) (flat post) (flat impl_post)].
